@@ -411,6 +411,9 @@ var c37Templates = []c37Template{
 
 var c37PadTargets = []int{500, 511, 512, 513, 600}
 
+// padding characters (thorough adds newline)
+var c37PadChars = []string{" "}
+
 type c37ACL struct{ Allow, Deny []string }
 
 var c37ACLs = func() []c37ACL {
@@ -450,12 +453,12 @@ func c37Fill(parts []string, a, b string) []string {
 
 // c37Pad renders parts with single spaces, padding with spaces after part `slot` so that the next
 // part starts at byte offset target. ok=false when the prefix is already longer.
-func c37Pad(parts []string, slot, target int) (string, bool) {
+func c37Pad(parts []string, slot, target int, ch string) (string, bool) {
 	prefix := strings.Join(parts[:slot+1], " ")
 	if len(prefix)+1 > target {
 		return "", false
 	}
-	return prefix + strings.Repeat(" ", target-len(prefix)) + strings.Join(parts[slot+1:], " "), true
+	return prefix + strings.Repeat(ch, target-len(prefix)) + strings.Join(parts[slot+1:], " "), true
 }
 
 // c37PadColumns replaces the select list by a list of columns long enough for FROM to start at target.
@@ -499,8 +502,10 @@ func c37Texts() []c37Text {
 				out = append(out, c37Text{Text: strings.Join(parts, " "), Label: lab})
 				for slot := 0; slot < len(parts)-1; slot++ {
 					for _, target := range c37PadTargets {
-						if q, ok := c37Pad(parts, slot, target); ok {
-							padded = append(padded, c37Text{Text: q, Label: fmt.Sprintf("%s/pad-after-%q-next-at-%d", lab, parts[slot], target)})
+						for _, ch := range c37PadChars {
+							if q, ok := c37Pad(parts, slot, target, ch); ok {
+								padded = append(padded, c37Text{Text: q, Label: fmt.Sprintf("%s/pad%q-after-%q-next-at-%d", lab, ch, parts[slot], target)})
+							}
 						}
 					}
 				}
@@ -517,7 +522,7 @@ func c37Texts() []c37Text {
 
 // c37Sessions: two-query sessions that exercise the decision cache.
 func c37Sessions() [][]c37Text {
-	prefix, _ := c37Pad([]string{"select *", "from", "ok", ""}, 2, 520)
+	prefix, _ := c37Pad([]string{"select *", "from", "ok", ""}, 2, 520, " ")
 	benign := c37Text{Text: prefix + "tail 1", Label: "benign-long(ok)"}
 	evilJoin := c37Text{Text: prefix + "join secret within 10m last 1h", Label: "same-512-prefix-then-join(secret)"}
 	short := c37Text{Text: "select * from ok tail 1", Label: "select(ok)"}
@@ -600,9 +605,13 @@ func c37Judge(up *c37Upstream, c c37Case, obs []c37Obs) (sig string, nontrivial 
 					mech = "truncated"
 				}
 				if mech == "truncated" {
-					// control: the same text with its whitespace runs collapsed (same parse, no truncation).
+					// control: the same text with its whitespace runs and repeated select columns collapsed (same
+					// topics, no truncation).
 					// If that is forwarded as well, the 512-byte cut is not what let the text through.
 					short := strings.Join(strings.Fields(f), " ")
+					for strings.Contains(short, "_key, _key, ") {
+						short = strings.ReplaceAll(short, "_key, _key, ", "_key, ")
+					}
 					if len(short) <= 512 && short != strings.TrimSpace(f) {
 						ctl, rerr := c37Run(up, c37Case{Allow: c.Allow, Deny: c.Deny, Queries: []string{short}})
 						if rerr != nil {
@@ -716,6 +725,11 @@ func TestVerifC37(t *testing.T) {
 	}
 
 	// ---- the case list (simplest first) ----
+	if vh.Thorough() {
+		c37PadTargets = []int{255, 500, 509, 510, 511, 512, 513, 514, 515, 600, 1024}
+		c37PadChars = []string{" ", "\n"}
+	}
+	rep.SetInfo("pad_chars", c37PadChars)
 	texts := c37Texts()
 	sessions := c37Sessions()
 	var cases []c37Case
